@@ -214,6 +214,12 @@ def family_db_views(seed):
     fam.append([SMALL, P("k", "old"), S, PF("b7"), D("k"), F, CL(2, None, None), REL,
                 P("a", "x"), P("b5", "x"), F, CL(2, "a", "b5"),
                 P("a2", "y"), P("b8", "y"), F, P("c", "y"), P("c2", "y"), F, CL(2, "c", "c2")])
+    # F12 (fixed): a damaged manifest record must not be skipped silently - two flushes (two version
+    # edits), then one byte inside the last record of the manifest is altered: `open` has to refuse
+    # the file; before the repair it opened and the newer value of `b` was gone / the older one back
+    DM = lambda back, mask: ["damage_manifest", str(back), str(mask)]
+    fam.append([P("a", "1"), P("b", "old"), F, P("b", "new"), F, DM(3, 64), P("c", "1")])
+    fam.append([P("a", "1"), F, C, P("b", "2"), F, C, P("a", "3"), F, DM(20 + seed % 7, 1 << (seed % 8))])
     # pseudo-random histories over a small key space
     x = (seed * 2654435761 + 12345) & 0xffffffff
     def rnd(n):
@@ -445,7 +451,7 @@ BOUNDS = {
     "family_crash_dir": "the inputs of family_crash; after the crash point the fault is cleared, the database is reopened, written once more and reopened again, and then its directory is compared with the current version, sampled for up to 3 s: a table file that is not in the current version, a missing one, a temp file or a manifest other than the one CURRENT names is reported only if it persists over all samples; write-ahead logs are not judged",
     "family_crash": "9 whole-database histories (the 5 of family_faults, 2 with values of 40000 and 70000 bytes, i.e. log records spanning 2-3 blocks of 32 KiB, and 2 in which an orphan table file, a temp file and a superseded manifest are dropped into the directory while the database is closed), each re-run once per counted file-system call and per crash mode (the call and everything after it fails; a failing write leaves 0 bytes, 1 byte, half or all but the last byte of its buffer); after the crash point the fault is cleared and the database is reopened, read, written once more and reopened again; in-process state that survives the simulated crash is not reset (only the file system decides what the restarted database sees)",
     "family_faults": "5 whole-database histories (3 hand-written, 2 pseudo-random per seed; at most 14 operations over 5 keys, with flushes, manual compactions and reopens, reuse_log_files on and off), each re-run once per counted file-system call (about 60 to 170 per history) with that call failing once, with that call and all later ones failing, and with that call failing once after half of its buffer was written (a torn write that is reported); only wrong results are judged - a panic or a hang of a faulted run is counted as not judged",
-    "family_db_views": "whole-database histories of at most 85 operations over 7 keys (8 hand-written + 10 pseudo-random per seed); every live snapshot and the latest state read back through get, both scan directions, seek to every key, a zig-zag walk and 5 cursor scripts per key",
+    "family_db_views": "whole-database histories of at most 85 operations over 7 keys (18 hand-written - among them the witnesses of F11 (level-targeted manual compactions with 4 KiB files) and F12 (one byte of the manifest altered between close and reopen; `open` may refuse) - + 10 pseudo-random per seed); every live snapshot and the latest state read back through get, both scan directions, seek to every key, a zig-zag walk and 5 cursor scripts per key",
     "family_log_reader": "write-ahead-log byte streams built from the hand-written and seeded append / reopen / truncate / flip scripts of tools/replay.py (records up to 3 blocks)",
     "family_table_get": "one table of 16 entries (4 user keys x 4 versions) at block sizes 1, 64, 150, 4096 with 49 lookups, plus a one-entry table",
     "family_key_range": "three hand-written file lists",
